@@ -391,6 +391,7 @@ PoolC12flat3 == {PE(Path(FALSE, <<Step("child", NTAny, <<>>), s1, s2>>), "seq") 
 PoolC12desc  == {PE(Desc(nt), "seq") : nt \in {TA, TB, NTAny, NTText, NTNode}}
                 \cup {PE(Path(FALSE, <<Step("descendant", nt, <<>>)>>), "seq") : nt \in {TA, TB, NTAny, NTNode}}
                 \cup {PE(Path(FALSE, <<DosNode, Step("child", nt, <<>>)>>), "seq") : nt \in {TA, TB, NTAny}}
+                \cup {PE(Path(ab, <<Step("descendant-or-self", nt, <<>>)>>), "seq") : ab \in BOOLEAN, nt \in {TA, TB, NTAny, NTNode, NTText}}
 PoolC12pred  == {PE(Path(FALSE, <<Step("child", nt, p)>>), "seq") : nt \in {TB, NTAny}, p \in FlatPreds}
                 \cup {PE(Path(FALSE, <<Step("child", NTAny, <<>>), Step("child", nt, p)>>), "seq") : nt \in {TB, NTAny}, p \in FlatPreds}
 PoolC12 == PoolC12flat1 \cup PoolC12flat2 \cup PoolC12desc \cup PoolC12pred
@@ -422,6 +423,15 @@ PoolC11seq(names) ==
         b \in {Rel1("child", NTAny), Desc(NTAny), SelfDot},
         n1 \in {NTName(n) : n \in names} \cup {NTAny, NTText}, n2 \in {NTName(n) : n \in names} \cup {NTAny, NTNode}}
     \cup {SeqStep(Rel1("child", NTAny), <<Step("child", NTAny, <<>>), Step("attribute", NTAny, <<>>), Step("child", NTText, <<>>)>>)}
+
+\* unions inside predicates: the same union object is evaluated again for every candidate
+PoolC11pred(names) ==
+    LET U == {Union(l, r) : l \in {Rel1("attribute", NTName("zz")), Rel1("child", NTName("zz")), Rel1("child", NTAny), Rel1("attribute", NTAny)},
+                            r \in {Rel1("child", NTAny), Rel1("child", NTText), Rel1("attribute", NTAny), Rel1("following-sibling", NTAny),
+                                    Rel1("parent", NTAny)} \cup {Rel1("child", NTName(n)) : n \in names}}
+    IN UNION {HostForms(Step(hax, NTAny, <<p>>)) : hax \in {"child", "descendant", "following-sibling"},
+                p \in U \cup {Bin("=", u, Lit("1")) : u \in U} \cup {Call("not", <<u>>) : u \in U}
+                      \cup {Bin(">", Call("count", <<u>>), N(1)) : u \in U}}
 
 (***************************************************************************)
 (* C13: wrappers that must preserve the node set / truth value             *)
